@@ -130,12 +130,12 @@ def run_inproc(filenames, outdir, **kw):
     return cfg, exc, buf.getvalue()
 
 
-def run_corpus_inproc(name, outdir, extra_options=()):
+def run_corpus_inproc(name, outdir, extra_options=(), **kw):
     for n, y, extra in CORPUS:
         if n == name:
             opts, lang, wv = parse_cmdline(extra)
             opts = ["debug_testsuite=true"] + opts + list(extra_options)
-            return run_inproc([corpus_yaml(y)], outdir, options=opts, language=lang, write_version=wv)
+            return run_inproc([corpus_yaml(y)], outdir, options=opts, language=lang, write_version=wv, **kw)
     raise KeyError(name)
 
 
